@@ -250,3 +250,9 @@ def discharge(o, timeout_ms=TIMEOUT_MS):
     else:
         o.status = "undecided"
     return o
+
+
+TASK_PROPS = set("C01 C04 C05 C06 C08".split())
+
+def tasks():
+    return [("kernels", "build_obligations", {})]
